@@ -38,7 +38,7 @@ TSOURCE_PROPS = [
     rw('ival', 'int'), rw('jval', 'int'), rw('uval', 'uint'), rw('dval', 'double'),
     rw('flag', 'bool'), rw('flagB', 'bool'), rw('text', 'QString'), rw('textB', 'QString'),
     rw('mode', 'Mode'), rw('opts', 'Opts'), rw('ptr', 'TSource*'), rw('sub', 'TSub*'),
-    rw('items', 'QStringList'), rw('vval', 'QVariant'),
+    rw('items', 'QStringList'), rw('vval', 'QVariant'), rw('level', 'Level'),
     prop('konst', 'int', 'konst', constant=True),
     prop('quiet', 'int', 'quiet', 'setQuiet'),                     # readable+writable, no NOTIFY, not CONSTANT
     prop('rdonly', 'int', 'rdonly', None, 'rdonlyChanged'),         # read-only with NOTIFY
@@ -76,11 +76,11 @@ classes = [
     cls('TGadget', object=False, gadget=True, props=[prop('gx', 'int', 'gx', 'setGx'), prop('gy', 'int', 'gy', 'setGy'),
                                                        prop('gname', 'QString', 'gname', 'setGname')]),
     cls('TSource', supers=['QWidget'],
-        enums=[enum('Mode', ['ModeA', 'ModeB', 'ModeC']), enum('Opt', ['OptX', 'OptY', 'OptZ']),
+        enums=[enum('Mode', ['ModeA', 'ModeB', 'ModeC']), enum('Level', ['Low', 'Mid', 'High'], isclass=True), enum('Opt', ['OptX', 'OptY', 'OptZ']),
                enum('Opts', ['OptX', 'OptY', 'OptZ'], flag=True, alias='Opt')],
         props=TSOURCE_PROPS + [rw('gad', 'TGadget')],
         signals=chg('jval', 'uval', 'dval', 'flag', 'flagB', 'text', 'textB', 'mode', 'opts', 'ptr', 'sub', 'items',
-                    'vval', 'rdonly', 'gad')
+                    'vval', 'rdonly', 'gad', 'level')
         + [meth('ivalChanged', args=['int']),
            meth('fired', args=['int', 'QString']), meth('fired', args=['int']),      # default-argument pair
            meth('plain'), meth('toggledTo', args=['bool']),
